@@ -26,12 +26,16 @@ type CaseC16 struct {
 	Ind        string                 `json:"ind"`
 	GoEmpty    bool                   `json:"go_empty,omitempty"`
 	CheckValid bool                   `json:"check_valid,omitempty"` // XmlCheckIsValid on: with escaping on every output is valid, so nothing may change
+	Alias      *AliasSpec             `json:"alias,omitempty"`       // one of the equal Maps holds a container object twice ("however they were built")
 }
 
 func init() { register("C16", checkC16) }
 
 func genC16(t *rapid.T) CaseC16 {
 	c := CaseC16{Src: rapid.SampledFrom([]string{"value", "value", "doc", "seq"}).Draw(t, "src")}
+	if rapid.IntRange(0, 2).Draw(t, "alias") == 0 {
+		c.Alias = &AliasSpec{Src: rapid.IntRange(0, 30).Draw(t, "asrc"), Dst: rapid.IntRange(0, 30).Draw(t, "adst"), Key: rapid.SampledFrom(xmlKeyNames).Draw(t, "akey")}
+	}
 	switch c.Src {
 	case "value":
 		g := VGen{Keys: xmlKeyNames, Attrs: true, Nulls: true}
@@ -54,7 +58,7 @@ func genC16(t *rapid.T) CaseC16 {
 		g := XGen{Opts: defaultOpts(), MixedText: true, Namespaces: true}
 		c.Doc = g.Elem(t, 3)
 	default:
-		g := XGen{Opts: defaultOpts(), Extras: true, Namespaces: true}
+		g := XGen{Opts: defaultOpts(), Extras: true, Namespaces: true, SeqKeys: true}
 		c.Doc = g.Elem(t, 3)
 	}
 	c.Shuffle = rapid.SliceOfN(rapid.IntRange(0, 40), 8, 40).Draw(t, "shuffle")
@@ -314,8 +318,24 @@ func checkC16(c CaseC16, info *Info) *Failure {
 			}
 		}
 	}
+	if c.Alias != nil && c.Src == "value" {
+		// the same content built three times: twice by value, once with one container object referenced from two places
+		probe := copyMap(m)
+		if applyAlias(probe, *c.Alias, false) {
+			m = probe
+		} else {
+			c.Alias = nil
+		}
+	}
 	m2 := rebuild(m, s).(map[string]interface{})
 	m3 := rebuild(m, s).(map[string]interface{})
+	if c.Alias != nil && c.Src == "value" {
+		shared := copyMap(c.Map)
+		if applyAlias(shared, *c.Alias, true) && reflect.DeepEqual(shared, m) {
+			m2 = shared
+			info.Class("one of the equal Maps shares a sub-structure")
+		}
+	}
 	keep := &keeper{}
 	x1, e1 := mxj.Map(m).Xml()
 	keep.add("Map.Xml", x1)
